@@ -301,11 +301,13 @@ impl<F: Float, L: Label + std::fmt::Debug> TreeNode<F, L> {
 
                 // Take the midpoint from this value and the next one as split_value. For two
                 // neighbouring floating point values the midpoint can round up onto the next
-                // value; the threshold has to stay below it, so that `<= split_value` selects
-                // exactly the observations that were moved to the left subtree so far
+                // value, and for two values of very large magnitude the sum overflows to an
+                // infinity; the threshold has to stay at or above this value and below the next
+                // one, so that `<= split_value` selects exactly the observations that were moved
+                // to the left subtree so far
                 let next_value = sorted_index.sorted_values[i + 1].1;
                 let midpoint = (split_value + next_value) / F::cast(2.0);
-                if midpoint < next_value {
+                if split_value <= midpoint && midpoint < next_value {
                     split_value = midpoint;
                 }
 
